@@ -408,15 +408,47 @@ def run_kani(harnesses, package=None, flags=None, timeout=600, jobs=8, repo=None
 
 
 def kani_playback(harness, package=None, flags=None, repo=None, timeout=600):
-    """Re-run one failing harness with concrete playback, then execute the generated test natively
-    against the real code. Returns text report."""
+    """Re-run one failing harness with concrete playback (test written in place into the scratch copy), then
+    execute the generated test natively against the real code. Returns {"test": text or None, "replayed": bool}."""
     sc = kani_prepare(repo)
-    cmd = ["cargo", "kani", "--harness", harness, "-Z", "concrete-playback", "--concrete-playback=print",
-           "-Z", "function-contracts", "-Z", "stubbing", "-Z", "mem-predicates", "--harness-timeout", f"{timeout}s"]
+    cwd = os.path.join(sc, package) if package else sc
+    cmd = ["cargo", "kani", "--harness", harness, "-Z", "concrete-playback", "--concrete-playback=inplace",
+           "-Z", "function-contracts", "-Z", "stubbing", "-Z", "mem-predicates", "-Z", "unstable-options",
+           "--harness-timeout", f"{timeout}s"]
     cmd += flags or []
-    rc, out, err, dt = sh(cmd, cwd=os.path.join(sc, package) if package else sc, timeout=timeout + 600)
-    m = re.search(r"(#\[test\]\nfn kani_concrete_playback_\w+\(\) \{.*?\n\})", out, re.S)
-    return {"test": m.group(1) if m else None, "out_tail": out[-6000:]}
+    rc, out, err, dt = sh(cmd, cwd=cwd, timeout=timeout + 600)
+    both = out + "\n" + err
+    names = re.findall(r"^\s*- (kani_concrete_playback_\w+)\.?\s*$", both, re.M)
+    if not names:
+        return {"test": None, "replayed": False, "out_tail": both[-3000:]}
+    # locate the generated tests in the scratch sources
+    texts = []
+    for d, dn, fn in os.walk(cwd):
+        dn[:] = [x for x in dn if x != "target"]
+        for x in fn:
+            if x.endswith(".rs"):
+                src = open(os.path.join(d, x), errors="replace").read()
+                for n in names:
+                    m = re.search(r"((?:\s*///[^\n]*\n)*\s*#\[test\]\s*\n\s*fn " + n + r"\(\) \{.*?\n\s*\}\n)", src, re.S)
+                    if m:
+                        texts.append(m.group(1))
+    fails = [t for t in texts if "Check for `cover`" not in t] or texts
+    rc2, out2, err2, dt2 = sh(["cargo", "kani", "playback", "-Z", "concrete-playback", "--", "kani_concrete_playback"],
+                              cwd=cwd, timeout=900)
+    native = out2 + "\n" + err2
+    panics = re.findall(r"panicked at [^\n]*\n[^\n]*", native)
+    replayed = "test result: FAILED" in native and bool(panics)
+    txt = ("// concrete counterexample found by CBMC, written into the scratch copy of the real crate and executed\n"
+           "// natively with `cargo kani playback -Z concrete-playback -- kani_concrete_playback`:\n"
+           + "\n".join(fails[:2]) + "\n// native run against the real code: "
+           + ("REPRODUCED — " + " | ".join(p.replace("\n", " ") for p in panics[:3]) if replayed else
+              "not reproduced natively (kani::stub models are not applied in playback)") + "\n")
+    # the in-place test must not stay in the cached scratch copy
+    try:
+        os.remove(os.path.join(sc, ".prepared"))
+    except OSError:
+        pass
+    return {"test": txt, "replayed": replayed, "out_tail": both[-3000:]}
 
 
 if __name__ == "__main__":
